@@ -442,6 +442,11 @@ theorem merge_inv {self other : Mol} (hs : self.Inv) (ho : other.Inv) : (self.me
   · rw [merge_eq hs ho hn]; exact mergeResult_inv hs ho _ _ _
   · rw [merge_err hn]; exact hs
 
+theorem merge_ok_eq {self other : Mol} (hs : self.Inv) (ho : other.Inv)
+    (hok : (self.merge other).2 = .ok) :
+    (self.merge other).1 = mergeResult self other other.nrexcl self.offset self.shiftBy.1 self.shiftBy.2 := by
+  by_cases hn : mergeNrexcl self other = other.nrexcl
+  · rw [merge_eq hs ho hn]
+  · rw [merge_err hn] at hok; cases hok
+
 end C12
-theorem C12.bogus : (1:Nat) = 2 := by rfl
-#print axioms C12.merge_inv
